@@ -18,6 +18,7 @@ import PgProofs.EvoPmxPerm
 import PgProofs.EvoCyclePerm
 import PgProofs.EvoLaws
 import PgProofs.EvoFuel
+import PgProofs.EvoDetPrims
 import PgModel.EvoSched
 import PgProofs.EvoNumP
 import PgProofs.EvoPropP
@@ -546,6 +547,62 @@ theorem C14_fuel_pointwise (sample : Bool) (g : GSpec) (fuel : Nat) (h : depth g
 step accepts a subchoice or uses up one of the 8 attempts). -/
 theorem C14_fuel_merge_multi (k : Nat) (dist srt : Bool) (lists : List (Option (List Nat))) (st : St) :
     mergeMulti k dist srt lists st ≠ .error .fuel := NF_mergeMulti k dist srt lists st
+
+/-! ## Determinism, prefix form -/
+
+/-- same oracle prefix ⇒ same output: a run that returns has read a prefix `used` of the oracle stream,
+and on every stream that starts with `used` it returns the same population, the same uid counter, and
+leaves exactly the rest of that stream. (For a seeded operator: the output is a function of the
+inputs and of the draws it makes, nothing else.) -/
+def Det (op : Op) : Prop := ∀ pop, FrameM (op pop)
+
+/-- composed pipelines inherit it. -/
+theorem C14_det_algebra (e : OpExpr) (h : ∀ op ∈ leaves e, Det op) : Det (eval e) :=
+  fun pop => eval_frame e (fun op ho p => h op ho p) pop
+
+theorem C14_det_selectors (n : NSpec) (r : Bool) :
+    Det (selRandom n r) ∧ Det (selSample n) ∧ Det (selTop n) ∧ Det (selBottom n) ∧ Det (selFirst n) ∧
+    Det (selLast n) :=
+  ⟨FrameM_selRandom n r, FrameM_selSample n, FrameM_selTop n, FrameM_selBottom n, FrameM_selFirst n,
+   FrameM_selLast n⟩
+
+theorem C14_det_selProportional (n : NSpec) (wf : Nat → List Q) : Det (selProportional n wf) := by
+  intro pop
+  simp only [selProportional]
+  split
+  · split
+    · exact FrameM.pure _
+    · exact FrameM.fail _
+  · split
+    · exact FrameM.fail _
+    · cases partition (wf pop.length) (numOutput n pop.length) with
+      | none => exact FrameM.fail _
+      | some a => exact FrameM.pure _
+
+theorem C14_det_mutators (w : Where) (fuel : Nat) (g : GSpec) :
+    Det (mutUniformW w fuel g) ∧ Det (mutSwapW w g) :=
+  ⟨FrameM_mutUniformW w fuel g, FrameM_mutSwapW w g⟩
+
+theorem C14_det_recombinators (fuel k : Nat) (g : GSpec) (cuts : List Nat) :
+    Det (recPointWise false fuel g) ∧ Det (recPointWise true fuel g) ∧ Det (recKPoint g k) ∧
+    Det (recSegmented g cuts) ∧ Det (recPerm permuteOrder k g) ∧ Det (recPerm permutePMX k g) ∧
+    Det (recPerm permuteCycle k g) :=
+  ⟨FrameM_recPointWise false fuel g, FrameM_recPointWise true fuel g,
+   FrameM_recSegment g _ (FrameM_kpointCuts k), FrameM_recSegment g _ (fun _ => FrameM.pure _),
+   FrameM_recPerm _ FrameM_permuteOrder k g, FrameM_recPerm _ FrameM_permutePMX k g,
+   FrameM_recPerm _ FrameM_permuteCycle k g⟩
+
+theorem C14_det_recNumeric (w : Option (Nat → List Q)) (g : GSpec) : Det (recNumeric w g) := by
+  intro pop
+  simp only [recNumeric]
+  split
+  · exact FrameM.pure _
+  · split
+    · exact FrameM.fail _
+    · generalize allSome _ = r
+      cases r with
+      | none => exact FrameM.fail _
+      | some raw => exact FrameM_finishChildren g raw
 
 /-- Determinism: an operation is a function of its inputs, its oracle stream and the uid counter
 (seeded operators: of seed and inputs) — in the model this is functionality of `eval`. -/
